@@ -304,6 +304,11 @@ impl SecondaryStorage {
 
         let _ddl = self.ddl_lock.lock().await;
 
+        // A compaction or a deletion of this table that is in flight has pinned RowSets and DVs
+        // which the changeset below removes: when it commits afterwards, it would touch entries
+        // that no longer exist in the snapshot. Take the table's lock like they do.
+        let _table_lock = self.txn_mgr.lock_for_deletion(table_id.table_id).await;
+
         // contrary to create table, we first modify the catalog
         self.apply_drop_table(&entry)?;
 
